@@ -92,6 +92,23 @@ def run(chk):
         if not (ne1 == ne2 and close(np.asarray(e2.centroids_) / pw, np.asarray(e1.centroids_), rtol=1e-9, atol=1e-12)):
             chk.fail("k-means with the default stopping threshold: the data in units 2**%d times larger (values scaled by %.3g) stop after %d iterations instead of %d and give other centroids"
                      % (int(round(-np.log2(pw))), pw, ne2, ne1), {"X": hexlist(Xs), "init": hexlist(init_s), "scale": pw, "iterations": [ne1, ne2]})
+    # ---- single-precision features on a grid (multiples of 2**-6) shifted by whole numbers of a few thousand: both data sets are exact in
+    #      float32, so the ML-trained model follows the shift exactly as for float64 data (the storage type of the features is not an observable)
+    for j in range(3 if chk.tier == "quick" else 40):
+        g = gen.nprng(r)
+        Xg_ = np.round(np.vstack([g.normal(size=(8, 2)) * 2.0 - 3.0, g.normal(size=(8, 2)) * 2.0 + 3.0]) * 64.0) / 64.0
+        bg_ = np.array([float(r.randint(2000, 4000)), -float(r.randint(2000, 4000))])
+        wg_, mug_, varg_ = np.array([0.5, 0.5]), np.array([[-3.0, -3.0], [3.0, 3.0]]), np.ones((2, 2)) * 4.0
+        res_ = []
+        for shift_ in (np.zeros(2), bg_):
+            mm_, _ = gt.build_machine(dict(w=wg_, mu=mug_ + shift_, var=varg_, thr=1e-6 * np.ones(2), sw=(True, True, True), eps=eps, cap=2, cthr=None))
+            gt.run_fit(mm_, (Xg_ + shift_).astype(np.float32))
+            res_.append((np.asarray(mm_.means, dtype=float), np.asarray(mm_.variances, dtype=float), np.asarray(mm_.weights, dtype=float)))
+        chk.count(1, key=("float32 features, exact shift",))
+        if not (close(res_[1][0], res_[0][0] + bg_, rtol=1e-7) and close(res_[1][1], res_[0][1], rtol=1e-5, atol=1e-6) and close(res_[1][2], res_[0][2], rtol=1e-6)):
+            chk.fail("ML training on float32 features shifted by %s (both data sets exactly representable) does not follow the shift: variances %s vs %s, weights %s vs %s"
+                     % (bg_.tolist(), res_[1][1].tolist(), res_[0][1].tolist(), res_[1][2].tolist(), res_[0][2].tolist()),
+                     {"X": hexlist(Xg_), "b": hexlist(bg_), "dtype": "float32", "mu": hexlist(mug_), "var": hexlist(varg_)})
     for i in range(n_cases):
         w, mu, var, s, X = gt.gen_training(r, N=r.choice([9, 14]))
         C, D = mu.shape
@@ -304,6 +321,19 @@ def run(chk):
                     and close(k2.average_min_distance, sc * sc * k1.average_min_distance, rtol=ktol, atol=ktol)
                     and np.array_equal(k2.predict(f(Xk)), k1.predict(Xk))):
                 chk.fail("k-means centroids do not follow a rotation + uniform scaling + translation of the data", {"X": hexlist(Xk), "init": hexlist(init), "scale": sc})
+            # the same observables through Dask input (transform / predict of the transformed samples held in a Dask array)
+            try:
+                import dask.array as _da
+                dXt = _da.from_array(f(Xk), chunks=((5, len(Xk) - 5), (Dk,)))
+                td = np.asarray(k2.transform(dXt))
+                ld = np.asarray(k2.predict(dXt))
+                chk.count(1, key=("kmeans, Dask transform/predict",))
+                t1 = np.asarray(k1.transform(Xk))
+                if not (close(td, sc * sc * t1, rtol=max(ktol, 1e-6), atol=max(ktol, 1e-6) * sc * sc * (1 + float(t1.max()))) and np.array_equal(ld, np.asarray(k1.predict(Xk)))):
+                    chk.fail("k-means transform / predict of the rotated, scaled (%.3g) and translated samples held in a Dask array do not follow the transformation (offset %.3g)"
+                             % (sc, big), {"X": hexlist(Xk), "init": hexlist(init), "scale": sc, "offset": float(big)})
+            except Exception as e:
+                chk.fail("k-means transform / predict on a Dask array raise %r" % (e,), {"X": hexlist(Xk), "scale": sc})
             # the same with a repeated initial centroid (two clusters start at the same point; the second one stays empty)
             if i % 3 == 1 and len(init) >= 2:
                 init_d = np.array(init)
